@@ -20,9 +20,9 @@
    Set / PutIfNotExists / Del / CompareAndSwap / CompareAndDelete:
      OpLock  : Lock(); the table operation
      OpAdd   : count.Add(delta); Unlock()
-   Clear:
-     ClrSeg i: Lock(i); data.Clear(); Unlock(i)      for i = 0 .. n-1, then
-     ClrSeg n: count.Store(0) *)
+   Clear (as repaired by aae41ee: no blanket Store(0) any more), for i = 0 .. n-1:
+     ClrSeg i: Lock(i); itemsCleared = Len(); data.Clear()
+     ClrSub i: count.Add(-itemsCleared); Unlock(i) *)
 From Sdns Require Import Common.Base Gen.C16 C16.Model.
 Open Scope nat_scope.
 
@@ -46,7 +46,8 @@ Inductive pc :=
 | SpSub (k : N) (cap : Z) (i : nat) (deficit : Z) (d : Z)
 | OpLock (c : call)
 | OpAdd (sg : nat) (delta : Z)
-| ClrSeg (i : nat).
+| ClrSeg (i : nat)
+| ClrSub (i : nat) (d : Z).
 
 Record cstate := mk_cstate {
   c_map : segmap;
@@ -161,9 +162,12 @@ Section Step.
     | ClrSeg i =>
         if i <? n then
           if lock_free s i
-          then Some (with_pc s tid (set_seg m i (tclear (seg m i)) cnt) (c_locks s) (ClrSeg (S i)) rest)
+          then Some (with_pc s tid (set_seg m i (tclear (seg m i)) cnt) (lupd i (Some tid) (c_locks s))
+                             (ClrSub i (tlen (seg m i))) rest)
           else None
-        else Some (with_pc s tid (mk_segmap (sm_segs m) 0%Z) (c_locks s) Idle rest)
+        else Some (with_pc s tid m (c_locks s) Idle rest)
+    | ClrSub i d =>
+        Some (with_pc s tid (mk_segmap (sm_segs m) (cnt - d)%Z) (lupd i None (c_locks s)) (ClrSeg (S i)) rest)
     end.
 
   (* a schedule is a list of thread ids; a thread that cannot move is skipped *)
